@@ -180,8 +180,8 @@ MUTANTS = [
     (G, ACG, "        _apply_controlled_gate_mps(psi, gate, tags=tags, **gate_opts)", "        _apply_controlled_gate_mps(psi.copy(), gate, tags=tags, **gate_opts)", "expect-fail"),
     (G, ACG, '    if contract in ("auto-mps", "nonlocal"):', '    if contract in ("auto-mps",):', "expect-fail"),
     # ---- CircuitPermMPS
-    (C, PAG, "        super()._apply_gate(gate, tags=tags, **gate_opts)\n\n    def calc_qubit_ordering", "        super()._apply_gate(gate, tags=tags, info={}, **gate_opts)\n\n    def calc_qubit_ordering", "expect-fail"),
-    (C, PAG, "        super()._apply_gate(gate, tags=tags, **gate_opts)\n\n    def calc_qubit_ordering", "        super()._apply_gate(gate, tags=tags, contract=False, **gate_opts)\n\n    def calc_qubit_ordering", "expect-fail"),
+    (C, PAG, "        super()._apply_gate(gate, tags=tags, **gate_opts)\n\n        # if the gate is non-local", "        super()._apply_gate(gate, tags=tags, info={}, **gate_opts)\n\n        # if the gate is non-local", "expect-fail"),
+    (C, PAG, "        super()._apply_gate(gate, tags=tags, **gate_opts)\n\n        # if the gate is non-local", "        super()._apply_gate(gate, tags=tags, contract=False, **gate_opts)\n\n        # if the gate is non-local", "expect-fail"),
     (C, PAG, "        gate = gate.copy_with(qubits=phys_sites)\n", "        gate = gate.copy_with(qubits=[p + 1 for p in phys_sites])\n", "expect-fail"),
     # the record stays true whether or not the sites are swapped back (the qubit bookkeeping is C07's matter)
     (C, PAG, '            gate_opts["swap_back"] = False\n', '            pass\n', "benign"),
